@@ -100,6 +100,15 @@ def replay_case(case):
             why = _judge(m, exp_rows, obs)
             if why:
                 bad.append({"spec": s, "form": "ModelSpec.get_linear_constraints", "names": names, "why": why, "expected": exp_rows, "observed": obs})
+    # the same specification over column names that need quoting (names of generated columns usually do)
+    qmap = {"x": "A[T.b]", "y": "x y", "z": "z:w"}
+    m = case["r"][0]
+    exp_rows = [{"a": [list(v) for v in row["a"]], "b": list(row["b"])} for row in m["rows"]]
+    sq = " ".join("`" + qmap[t] + "`" if t in qmap else t for t in case["t"])
+    obs = observe(sq, [qmap[n] for n in NAMELISTS[0]])
+    why = _judge(m, exp_rows, obs)
+    if why:
+        bad.append({"spec": sq, "form": "string over quoted column names", "names": [qmap[n] for n in NAMELISTS[0]], "why": why, "expected": exp_rows if m["st"] == "OK" else m["st"], "observed": obs})
     return bad
 
 
